@@ -413,10 +413,17 @@ pub fn run(run: &Run) {
     install_sentinel();
 
     // ---- install race: fresh processes, 16 threads call panic_catcher_set_hook at once
-    let races = run.opts.size(150, 3_000);
+    let races = run.opts.size(48, 1_500);
     run.isolated("install-race", races, 60, "C19", |i, l| {
         // (child process: sentinel installed above, catcher hook NOT yet installed)
-        let threads = 16;
+        let threads: usize = run
+            .opts
+            .extra
+            .get("race-threads")
+            .and_then(|s| s.parse().ok())
+            .unwrap_or(16);
+        // widen the window between take_hook and set_hook inside the catcher
+        wirefilter::verif::set_race_delay_us(2_000);
         let barrier = Arc::new(Barrier::new(threads));
         let hs: Vec<_> = (0..threads)
             .map(|_| {
@@ -430,6 +437,7 @@ pub fn run(run: &Run) {
         for h in hs {
             let _ = h.join();
         }
+        wirefilter::verif::set_race_delay_us(0);
         l.evals += 1;
         // a panic outside catch_panic still reaches the previously installed hook, once
         let prog = [Step::Enable, Step::Enter, Step::Panic, Step::Disable];
